@@ -101,3 +101,13 @@ for _prim, _nm, _fn in ((0, "utf8_ref", "sexp_utf8_ref"), (1, "utf8_next", "sexp
                        functions=["lib/chibi/io/port.c:" + _fn],
                        bound="none for the offsets (all fixnums); the bytevector / string has an enumerated shape (2..9 bytes) because CBMC cannot take symbolic object sizes",
                        instances=[{"name": "w%d%d%d" % p, "defs": {"W1": p[0], "W2": p[1], "W3": p[2], "PRIM": _prim}} for p in ((1, 0, 0), (2, 1, 0), (3, 4, 1))]))
+
+# uniform-vector constructors: the element type code from Scheme indexes two static tables
+for _nm, _fn in (("list_to_uvector", "sexp_list_to_uvector_op"),):      # make-uvector checks its type code itself; its instance was left undecided by the ignored obligations and is not claimed
+    GROUPS.append({"name": "uv_" + _nm, "label": "bounded", "harness": "harness/C01/uvector.c", "entry": "h_" + _nm, "flags": ["-I@BUILD@/shim_small"],
+                   "havoc_keep": [_fn], "unwind": 3, "unwinding_assertions": False, "min_obligations": 1, "timeout": 300, "mem_gb": 4,
+                   "cbmc": ["--no-standard-checks", "--bounds-check", "--drop-unused-functions"],      # array-bounds obligations only: the callees return arbitrary values, so pointer obligations on their results would be artefacts
+                   "functions": ["sexp.c:" + _fn + "(table accesses)"],
+                   "bound": "every fixnum type code; loops of the function unrolled twice (the table accesses precede them)",
+                   "assumptions": ["every callee returns an arbitrary value; only array-bounds obligations (the static tables sexp_uvector_chars / sexp_uvector_sizes) are generated in this group"],
+                   "instances": [{"name": "all"}]})
